@@ -23,10 +23,11 @@ func (v *Vue) evalInclude(ctx VueContext, node *html.Node, vars map[string]any, 
 	ctx.stack.Push(vars)
 	defer ctx.stack.Pop()
 
-	// Extract slot content from the component tag if not already processed
-	if ctx.SlotScope == nil {
-		ctx.SlotScope = extractSlotContent(node)
-	}
+	// The component's slots are filled from its own tag. The scope that is current
+	// here is remembered: it is where that content was written (see evalSlot).
+	slotScope := extractSlotContent(node)
+	slotScope.outer = ctx.SlotScope
+	ctx.SlotScope = slotScope
 
 	// Merge inherited slots from parent template (passed via __slotScope__ in data)
 	if inheritedSlotScopeData, ok := ctx.stack.EnvMap()["__slotScope__"]; ok {
